@@ -85,29 +85,34 @@ Theorem C18_type_roundtrip_refuted :
 Proof. exact type_roundtrip_refuted. Qed.
 Print Assumptions C18_type_roundtrip_refuted.
 
-(** ** whole file.  "Same index contents after load" is false of the faithful model: the database
-    T(A) = {1,2,3} with index IA(A) has three index entries; after save_binary / load_binary the tables,
-    rows and index definitions are back but the index is empty (the loader creates the indexes before
-    the rows arrive and Table::insert does not maintain them) *)
-Theorem C18_file_roundtrip_refuted :
+(** ** whole file.  The database T(A) = {1,2,3} with index IA(A) -- the witness of the former empty-index
+    defect -- now comes back from save_binary / load_binary with its three index entries: [read_data]
+    rebuilds every user index from the loaded rows *)
+Theorem C18_file_roundtrip_indexed :
   map (fun i => length (i_entries i)) (d_indexes db_indexed) = [3%nat]
-  /\ load_result E0 (save_binary db_indexed) = Ok (clear_entries db_indexed) []
-  /\ clear_entries db_indexed <> db_indexed.
-Proof. exact file_roundtrip_refuted. Qed.
-Print Assumptions C18_file_roundtrip_refuted.
+  /\ load_result E0 (save_binary db_indexed) = Ok db_indexed [].
+Proof. exact file_roundtrip_indexed. Qed.
+Print Assumptions C18_file_roundtrip_indexed.
 
-(** what does hold, for EVERY database satisfying [wf_db] (BinRoundtripLaws.v: no triggers; schema/role/
-    table/column/index names valid UTF-8 shorter than 4 GiB, unique, table names without a dot; every
-    column type [supported]; at least one column per table; every stored row already in normal form
+(** for EVERY database satisfying [wf_db] (BinRoundtripLaws.v: no triggers; schema/role/table/column/
+    index names valid UTF-8 shorter than 4 GiB, unique, table names without a dot; every column type
+    [supported]; at least one column per table; every stored row already in normal form
     ([normalize_row] is the identity on it), every value well-formed and -- for temporal values -- read
     back by the temporal parser; index names ASCII upper case and unique, index table and columns
     resolvable; counts below 2^32 / 2^64) and for every trailing content [extra]:
     loading the saved file returns all schemas, roles, tables, columns, types, nullability, rows (bit
-    for bit, in order) and index definitions, with the index entries emptied, and leaves [extra] unread *)
+    for bit, in order), index definitions AND index contents (rebuilt from the rows), and leaves
+    [extra] unread *)
 Theorem C18_file_roundtrip : forall E d extra,
-  wf_db E d -> load_result E (save_binary d ++ extra) = Ok (clear_entries d) extra.
+  wf_db E d -> load_result E (save_binary d ++ extra) = Ok (with_indexes_built d) extra.
 Proof. exact file_roundtrip. Qed.
 Print Assumptions C18_file_roundtrip.
+
+(** exactly the saved database when its index contents are the ones the storage layer maintains *)
+Theorem C18_file_roundtrip_exact : forall E d extra,
+  wf_db E d -> with_indexes_built d = d -> load_result E (save_binary d ++ extra) = Ok d extra.
+Proof. exact file_roundtrip_exact. Qed.
+Print Assumptions C18_file_roundtrip_exact.
 
 (** ** JSON format, value mapping of json.rs ([sql_value_to_json] / [json_value_to_sql]) over an abstract
     JSON value (the text layer is serde_json's).  Every finite, well-typed, well-formed value comes back
